@@ -124,6 +124,26 @@ int main(int argc, char** argv) {
       }
       c.add("manual_pairs_same_total_offset_different_split", same_total);
     }
+    // ---- manual zones whose (std, dst) pair has the bit pattern of a registered zone id (TimeZoneData keeps both in one
+    //      union): restoring them through a manager that knows that zone must still give the manual zone
+    {
+      std::vector<uint32_t> ids;
+      for (uint16_t i = 0; i < ExtDb::size(); i++) ids.push_back(ExtDb::id(ExtDb::info(i)));
+      for (uint16_t i = 0; i < BasicDb::size(); i++) ids.push_back(BasicDb::id(BasicDb::info(i)));
+      for (uint32_t id : ids) for (int swap = 0; swap < 2; swap++) {
+        int16_t lo = (int16_t)(id & 0xFFFF), hi = (int16_t)(id >> 16);
+        int sm = swap ? hi : lo, dm = swap ? lo : hi;
+        if (sm == -32768 || dm == -32768 || sm + dm > 32767 || sm + dm <= -32768) continue;   // the error sentinel / out of int16
+        TimeZone tz = TimeZone::forTimeOffset(TimeOffset::forMinutes(sm), TimeOffset::forMinutes(dm));
+        TimeZoneData d = tz.toTimeZoneData();
+        for (ZoneManager* m : {(ZoneManager*)&xm, (ZoneManager*)&bm}) {
+          TimeZone r = m->createForTimeZoneData(d);
+          if (r.getType() != TimeZone::kTypeManual || !(r == tz) || r.getStdOffset().toMinutes() != sm || r.getDstOffset().toMinutes() != dm || r.getUtcOffset(0).toMinutes() != sm + dm)
+            violation("c16:manual:restore-of-id-aliasing-pair", fmt("{\"std\":%d,\"dst\":%d,\"aliased_zone_id\":\"0x%08x\",\"restored_type\":%d}", sm, dm, id, r.getType()));
+          c.add("manual_id_aliasing_restores");
+        }
+      }
+    }
     // ---- error zone
     TimeZone e = TimeZone::forError(); TimeZoneData de = e.toTimeZoneData();
     if (de.type != TimeZoneData::kTypeError || !xm.createForTimeZoneData(de).isError() || !bm.createForTimeZoneData(de).isError()) violation("c16:error-zone-restore", "{}");
